@@ -62,6 +62,14 @@ impl C04 {
         }
       }
     }
+    // the term days this rule is judged against do not depend on how the term is addressed: (y, i) == (y + 1, i - 24)
+    for i in (0..24i64).step_by(2) {
+      let (a, b) = (cursory_jdn(y, i), cursory_jdn(y + 1, i - 24));
+      if a != b {
+        out.fail(env, viol("span", "term_day_depends_on_how_the_term_is_addressed", case, &[("y", y), ("i", i)], format!("SolarTerm::from_index({}, {}) vs from_index({}, {})", y, i, y + 1, i - 24), a.to_string(), b.to_string()));
+        break;
+      }
+    }
     let w0 = cursory_jdn(y, 0);
     let w1 = cursory_jdn(y + 1, 0);
     let g0 = l.pos(y - 1, 11).unwrap_or(0);
